@@ -1,7 +1,7 @@
 import Arc.Proofs.C15.Strip
 /-! C15 helper lemmas: masker segments = SqlLex segments on `kClassM = 0` (tree at 64dff5c: the
 masker's quote bodies, E-string bodies, dollar tags and block comments ARE SqlLex's; what is left is
-the previous-byte test for `$` / `e'` and the `--` comment that only ends at `\n`). -/
+the previous-byte test for `$` / `e'`; tree at 73763cd). -/
 namespace Arc.C15
 
 theorem isIdCont_not_quote (c : UInt8) (h : isIdCont c = true) : c ≠ QUOTE ∧ c ≠ DQUOTE := by
@@ -107,12 +107,9 @@ theorem mTok_eq_lTok (inId : Bool) (prev c : UInt8) (t : Bytes) (hk0 : kTokM inI
       | some x => rfl
   rw [if_neg h4] at hk0
   by_cases h5 : c = DASH ∧ t.head? = some DASH
-  · rw [if_pos h5] at hk0
-    have hcr : (spanP (fun b => b != NL && b != CR) (c :: t)).2.head? ≠ some CR := by
-      intro hh; rw [if_pos hh] at hk0; simp [kCrEndsLineM] at hk0
-    rw [lTok_line _ _ _ h0 h1 h2 h3 h4 h5]
+  · rw [lTok_line _ _ _ h0 h1 h2 h3 h4 h5]
     unfold mTok
-    rw [if_neg h4, if_neg he, if_pos h5, spanP_nl_cr _ hcr]
+    rw [if_neg h4, if_neg he, if_pos h5]
   by_cases h6 : c = SLASH ∧ t.head? = some STAR
   · rw [lTok_block _ _ _ h0 h1 h2 h3 h4 h5 h6]
     unfold mTok
